@@ -148,6 +148,12 @@ def bridge_text(enums):
         # (JS only) a second method returns the enum inside an Option: the value then reaches JS through wasm memory
         lines.append("    impl %s { pub fn f(self, o: %s) -> %s { let _ = self; o } #[diplomat::attr(not(js), disable)] pub fn g(self) -> Option<%s> { Some(self) } }"
                      % (name, name, name, name))
+    # (Dart only) use sites OUTSIDE the enum's own file: an opaque generated before the enums with one static method per enum
+    lines.append("    #[diplomat::opaque]\n    #[diplomat::attr(not(dart), disable)]\n    pub struct ZHost;")
+    lines.append("    impl ZHost {")
+    for name, spec in enums:
+        lines.append("        pub fn h_%s(o: %s) -> %s { o }" % (name.lower(), name, name))
+    lines.append("    }")
     lines.append("}")
     return "\n".join(lines) + "\n"
 
@@ -531,8 +537,32 @@ def parse_dart(name, text):
     return {"variants": variants, "ffi": ffi, "self_form": self_form, "param_form": param_form, "ret_form": ret_form}
 
 
+_DART_HOST = re.compile(r"\n  static (\w+) h(\w+)\((\w+) o\) \{\n    final result = _ZHost_h_(\w+)\(o\.(\w+)\);\n    return ([^\n]*);\n  \}\n")
+
+
+def parse_dart_host(out):
+    """{enum name lower-cased: (to-FFI form, from-FFI form)} from ZHost.g.dart"""
+    p = os.path.join(out, "ZHost.g.dart")
+    if not os.path.exists(p):
+        raise Undecided("dart: ZHost.g.dart not generated")
+    res = {}
+    for m in _DART_HOST.finditer(open(p).read()):
+        ty, _camel, pty, sym, form, ret = m.groups()
+        if ty != pty or form not in ("index", "_ffi"):
+            raise Undecided("dart ZHost: method for %s in an unexpected form" % sym)
+        if ret == "%s.values[result]" % ty:
+            rf = "values[n]"
+        elif ret == "%s.values.firstWhere((v) => v._ffi == result)" % ty:
+            rf = "firstWhere"
+        else:
+            raise Undecided("dart ZHost: from-FFI expression %r" % ret)
+        res[sym] = (ty, form, rf)
+    return res
+
+
 def observe_dart(b, out, enums):
     obs = {}
+    host = parse_dart_host(out)
     for name, spec in enums:
         p = os.path.join(out, name + ".g.dart")
         if not os.path.exists(p):
@@ -553,11 +583,25 @@ def observe_dart(b, out, enums):
                     return v
             return "StateError"
 
-        o = {"form": "%s/%s/%s" % (d["self_form"], d["param_form"], d["ret_form"]), "variants": []}
+        h = host.get(name.lower())
+        if h is None or h[0] != name:
+            raise Undecided("dart: no ZHost method for enum %s" % name)
+        if d["ffi"] is None and (h[1] == "_ffi" or h[2] == "firstWhere"):
+            raise Undecided("dart ZHost: `_ffi` of %s used but the enum has no such getter (would not compile)" % name)
+
+        def from_native_host(n):
+            if h[2] == "values[n]":
+                return d["variants"][n] if 0 <= n < len(d["variants"]) else "RangeError"
+            for v in d["variants"]:
+                if d["ffi"][v] == n:
+                    return v
+            return "StateError"
+
+        o = {"form": "%s/%s/%s host:%s/%s" % (d["self_form"], d["param_form"], d["ret_form"], h[1], h[2]), "variants": []}
         for i, n in enumerate(b.rust[name]):
             v = "v%d" % i
             o["variants"].append({"self": to_native(v, d["self_form"]), "param": to_native(v, d["param_form"]),
-                                  "from": from_native(n)})
+                                  "from": from_native(n), "host_param": to_native(v, h[1]), "host_from": from_native_host(n)})
         obs[name] = o
     return obs
 
@@ -775,8 +819,10 @@ def judge(b):
         if o is not None:
             for i, n in enumerate(rv):
                 r = o["variants"][i]
-                add(name, "dart", "to-ffi", i, r["self"] == n and r["param"] == n, n, {"self": r["self"], "param": r["param"], "form": o["form"]})
-                add(name, "dart", "from-ffi", i, r["from"] == "v%d" % i, "v%d" % i, {"from": r["from"], "form": o["form"]})
+                add(name, "dart", "to-ffi", i, r["self"] == n and r["param"] == n and r["host_param"] == n, n,
+                    {"self": r["self"], "param": r["param"], "param of another type's method": r["host_param"], "form": o["form"]})
+                add(name, "dart", "from-ffi", i, r["from"] == "v%d" % i and r["host_from"] == "v%d" % i, "v%d" % i,
+                    {"from": r["from"], "returned by another type's method": r["host_from"], "form": o["form"]})
         # Kotlin
         o = b.obs.get("kotlin", {}).get(name)
         if o is not None:
